@@ -2,6 +2,7 @@ package main
 
 import (
 	"fmt"
+	"strings"
 
 	"golang.org/x/tools/go/ssa"
 )
@@ -188,4 +189,33 @@ func c10ReplyFlat(c *Ctx, rule string, csh, cr *ssa.Function) {
 	c.Check(okRecs, rule, "reply = handshake(22) ‖ change_cipher_spec(20, body 01) ‖ application_data(23), all version 03 03", c.atFn(cr), fmt.Sprint(shown), fmt.Sprintf("reply records are %v", shown))
 	c.Check(okLen && len(recs) > 0, rule, "server record wrapper: typ ‖ ver ‖ BE16(len(input)) ‖ input", c.atFn(cr), "every record declares the length of its own body", fmt.Sprintf("a record's declared length is not the length of the body that follows: %v", shown))
 	_ = ev
+	// the application-data record that ends the server's flight has a body of 1 … 2^14+256 bytes, whatever is drawn:
+	// the body is a parameter of composeReply; at every call site it is a buffer whose length has constant bounds
+	if okParse && len(recs) == 3 && len(recs[2].body) == 1 && recs[2].body[0].Kind == "sym" {
+		if prm, isP := recs[2].body[0].Src.(*ssa.Parameter); isP {
+			idx := -1
+			for i, q := range cr.Params {
+				if q == prm {
+					idx = i
+				}
+			}
+			n := 0
+			for _, cs := range p.CallersOf(cr) {
+				if strings.HasSuffix(p.Pos(cs.Pos()), "_test.go") || idx < 0 {
+					continue
+				}
+				args := callArgs(cs.Common())
+				if idx >= len(args) {
+					continue
+				}
+				n++
+				lo, hi, okB, how := bufLenBounds(args[idx])
+				c.Check(okB && lo >= 1 && hi <= 16384+256, rule, "application-data record of the server's flight carries 1 … 16640 bytes", c.at(cs), fmt.Sprintf("body length in [%d, %d] (%s)", lo, hi, how),
+					fmt.Sprintf("the length of the record body is not provably within 1 … 16640 (bounds [%d, %d], decided=%v, %s): for some draw the server sends an empty (or oversized) application-data record, which no TLS stack emits at this point", lo, hi, okB, how))
+			}
+			if n == 0 {
+				c.Undecided(rule, "application-data record of the server's flight carries 1 … 16640 bytes", c.atFn(cr), "no call site of composeReply found")
+			}
+		}
+	}
 }
